@@ -6,6 +6,7 @@ import (
 	"fmt"
 	"sort"
 	"strings"
+	"time"
 
 	"github.com/massnetorg/mass-core/blockchain"
 	"github.com/massnetorg/mass-core/massutil"
@@ -51,7 +52,12 @@ type c02State struct {
 	k        *sim.WalletKeys
 	reserved map[wire.OutPoint]bool
 	apiSrv   bool
+	hung     bool  // a creating call never returned: the wallet's locks are held, the case ends
+	maxWork  int64 // storage calls of the most expensive creation so far
 }
+
+// c02WorkBound: storage calls after which a creating call that is still running is judged to loop
+const c02WorkBound = 300000
 
 const (
 	c02RelayPerKB = 10000
@@ -165,13 +171,46 @@ func c02Check(t *core.T, s *c02State, r *c02Req) {
 		outTotal += a
 	}
 	t.Eval(1)
-	hexTx, fee, cerr := s.call(t, r)
-	wd.Logf("%s -> err=%v fee=%d (eligible coins %d sum %d)", r.String(), cerr, fee, len(E), sumE)
 	fail := func(sig, msg string) {
 		w := wd.Witness()
 		w["request"] = r.String()
 		t.Violate(sig, msg, w)
 	}
+	// the creating call runs under a work bound: a call that is still running after the watchdog AND
+	// after c02WorkBound storage calls (a creation over 600 coins needs a few thousand) does not
+	// create anything, it loops - with the wallet's read lock held
+	type c02Ret struct {
+		hexTx string
+		fee   int64
+		err   error
+	}
+	work := func() int64 { return wd.W.DB.Seq() + wd.N.Wrap.TotalCalls() }
+	w0 := work()
+	retc := make(chan c02Ret, 1)
+	go func() {
+		h, f, e := s.call(t, r)
+		retc <- c02Ret{h, f, e}
+	}()
+	var ret c02Ret
+	select {
+	case ret = <-retc:
+	case <-time.After(15 * time.Second):
+		done := work() - w0
+		t.Recycle()
+		s.hung = true
+		if done > c02WorkBound {
+			fail("creation-never-returns", fmt.Sprintf("the creating call has not returned after %d storage calls (bound %d) and is still running", done, c02WorkBound))
+		} else {
+			t.Inconclusive(fmt.Sprintf("creating call did not return within 15 s (%d storage calls, below the work bound: not judged)", done))
+		}
+		return
+	}
+	if d := work() - w0; d > s.maxWork {
+		s.maxWork = d
+		t.Max("storage_calls_of_one_creation", int(d))
+	}
+	hexTx, fee, cerr := ret.hexTx, ret.fee, ret.err
+	wd.Logf("%s -> err=%v fee=%d (eligible coins %d sum %d)", r.String(), cerr, fee, len(E), sumE)
 	if auto {
 		fHi := r.Fee
 		if fHi < c02Relay(c02MaxStdSize) {
@@ -698,7 +737,7 @@ func c02Case(t *core.T, reqs int) {
 		t.Fatalf("use wallet: %v", err)
 	}
 	s := &c02State{wd: wd, k: k, reserved: map[wire.OutPoint]bool{}}
-	for i := 0; i < reqs && !t.Failed(); i++ {
+	for i := 0; i < reqs && !t.Failed() && !s.hung; i++ {
 		v, err := sim.ViewOfChain(wd.N.BestChain())
 		if err != nil {
 			t.Fatalf("view: %v", err)
